@@ -331,3 +331,6 @@ def run_case(case):
           "state": repr(sorted(st.items(), key=lambda kv: kv[0])), "digest": common.digest(*digests),
           "violations": viol, "traces": len(runs),
           "sample": {"case": case, "alphabet_sizes": [int(r[1].size) for r in runs]}}
+
+# (appended: sub-lattices added after the seeded waves; kept out of the original RULE text for readability)
+RULE = RULE + '; plus: data-dependent scales with integer bits and a frozen (post-training) scale'
